@@ -80,9 +80,9 @@ Definition background : server :=
 Definition case_sid : sid := 7%N.
 
 (** Drive the case's thread the way the rig forces it: the admission runs; right after a middleware
-    ran, the Join goroutines it started on "slow" rooms enter Join (they now hold joinMu, their
-    AddAll is held up by the rig's adapter); when the admission cannot move (it waits for joinMu)
-    or is over, the held Join completes.  "late" Joins run after the handlers.  The view is recorded
+    ran, the Join goroutine it started on a "slow" room enters Join (it now holds joinMu, its
+    AddAll is held up by the rig's adapter; an earlier held Join finishes first); when the admission
+    cannot move (it waits for joinMu) or is over, the held Join completes.  "late" Joins run after the handlers.  The view is recorded
     at every middleware entry. *)
 Definition is_late (j : jthread) : bool := existsb (fun r => (200 <=? r)%N) (fst j).
 
@@ -99,6 +99,17 @@ Definition pc_code (p : pc) : N :=
   | PRejected _ => 1004 | PStore => 1005 | PConnTables => 1006 | PJoinOwn => 1007
   | PSendConnect => 1008 | PSetConnected => 1009 | PSpawn => 1010 | PAdmitted => 1011
   end%N.
+
+Definition is_new (j : jthread) : bool := match snd j with JNew => true | _ => false end.
+
+(** right after a middleware ran: the Join it started on a "slow" room gets in progress before the
+    middleware returns; if an earlier Join still holds joinMu, that one has to finish first *)
+Definition settle_new (t : adm) (s : server) : adm * server :=
+  let pending := fun j => negb (is_late j) && is_new j in
+  let '(ta, sa) := step_joins pending t s in
+  if existsb pending (t_js ta)
+  then let '(tb, sb) := step_joins is_hold ta sa in step_joins pending tb sb
+  else (ta, sa).
 
 Fixpoint sim (fuel : nat) (k : nat) (t : adm) (s : server) (acc : list (N * view))
   : adm * server * list (N * view) :=
@@ -120,7 +131,7 @@ Fixpoint sim (fuel : nat) (k : nat) (t : adm) (s : server) (acc : list (N * view
         if held t then let '(t2, s2) := step_joins is_hold t s in sim f k t2 s2 acc'
         else (t, s, acc')
       else
-        let '(t2, s2) := step_joins (fun j => negb (is_late j) && negb (is_hold j)) t1 s1 in
+        let '(t2, s2) := settle_new t1 s1 in
         sim f k t2 s2 acc'
   end.
 
